@@ -210,18 +210,21 @@ WITNESSES = [["p==abc", "p==1.0"], ["p==", "p"], ["p", "p==abc"], ["p==1.0", "p=
              ["p==1.0+", "p==1.0"], ["p==1.0a1b2", "p==0.9"], ["p==1!1.0rc1", "p==2.0", "p==1!1.0"],
              ["P==1.0"], ["My_Pkg==1.5", "q==1.0"],
              # witnesses of the open findings C20-F6 (a line that is not `name[==version]` is kept as a package name),
-             # C20-F7 (spellings of one package are separate rows)
+             # C20-F7 (spellings of one package are separate rows); the witnesses of the fixed C20-F8 (byte-order mark) are
+             # the file-format sweep cases
              ["p[extra]==1.0"], ["-r other.txt", "p==1.0"], ["p == 1.0", "p==2.0"], ["p @ https://example.invalid/p.whl"],
              ["My_Pkg==1.0", "my-pkg==2.0"], ["p==1.0", "P==2.0"], ["my.pkg", "MY-PKG==1.0", "my-pkg==0.9"]]
 
 
 def file_fmt(rng, weird=0.25):
-    """how the file is written: line ending, final newline, (rarely, in dedicated cases) a byte-order mark"""
+    """how the file is written: line ending, final newline, byte-order mark"""
     f = {}
     if rng.random() < weird:
         f["eol"] = rng.choice(["\r\n", "\r\n", "\r"])
     if rng.random() < weird:
         f["nofinalnl"] = True
+    if rng.random() < weird / 2:
+        f["bom"] = True                 # "UTF-8 with BOM": ignored since fix ed5a646 (finding C20-F8)
     return f
 
 
@@ -449,8 +452,9 @@ def file_bytes(f):
 
 
 def seen_lines(f):
-    """the lines `readlines()` hands to the code (text mode: universal newlines; the byte-order mark is NOT removed by
-    encoding="utf-8") – this is what the model is given; the oracle works on the lines as written"""
+    """the lines of the file decoded as plain utf-8 (text mode: universal newlines; a byte-order mark is the first
+    character of the first line) – this is what the model is given: dropping the mark (`utf-8-sig`, fix ed5a646) is the
+    model's `decodeLines` under `Cfg.stripBom`; the oracle works on the lines as written"""
     lines = list(f["lines"])
     if f.get("bom"):
         lines = [BOM + lines[0]] + lines[1:] if lines else [BOM]
@@ -853,8 +857,6 @@ def verdict(c):
             return None
         sp = sp if isinstance(sp, list) else [sp]
         for st, tab in zip(c.payload["steps"], sp):
-            if any(f.get("bom") for f in st["files"]):
-                continue
             want = oracle_table(st["files"])
             got = {kv[0]: kv[1] for kv in tab} if isinstance(tab, list) else {}
             if set(got) != set(want) or any(not veq(got[p], want[p]) for p in want):
@@ -867,7 +869,8 @@ def verdict(c):
 # classify() gives such a case a signature that no known-findings entry carries, so not even a stale or re-opened entry
 # with the old signature could excuse it.
 FIXED_SIGNATURES = {"invalid-pin-selected-malformed": "C20-F1", "invalid-pin-selected-empty": "C20-F2",
-                    "specifier-kept-as-name": "C20-F3", "sentinel-pin-as-unpinned": "C20-F4"}
+                    "specifier-kept-as-name": "C20-F3", "sentinel-pin-as-unpinned": "C20-F4",
+                    "bom-first-line-kept": "C20-F8"}
 
 
 def classify(c, reason):
